@@ -318,7 +318,7 @@ def _run_case(x, xr, case, nvars, c0, engine, stats, tainted):
                 if expanded[0] or not mem.exists:
                     continue
                 with under_test(tag):
-                    if per_call:
+                    if per_call and h._full_ds is None:
                         h.load_full_ds(engine=engine)
                     h.expand_dims("c", c0, **ekw)
                 expanded[0] = True
